@@ -178,16 +178,14 @@ Lemma ba_toString_num off d : builtin_apply off (str "toString") [VNum d] =
   if is_nan d then Unk else Ok (VStr (dec_to_string d)).
 Proof. reflexivity. Qed.
 Lemma ba_toInt_num off d :
-  builtin_apply off (str "toInt") [VNum d] =
-  match to_i64_opt d with Some a => Ok (VNum (dec_of_Z a)) | None => Unk end.
+  builtin_apply off (str "toInt") [VNum d] = Ok (VNum (to_int_dec d)).
 Proof. reflexivity. Qed.
 Lemma ba_toFloat_num off d : builtin_apply off (str "toFloat") [VNum d] = Ok (VNum d).
 Proof. reflexivity. Qed.
 Lemma ba_toFloat_str off s : builtin_apply off (str "toFloat") [VStr s] = Ok (VNum (num_of_text s)).
 Proof. reflexivity. Qed.
 Lemma ba_toInt_str off s :
-  builtin_apply off (str "toInt") [VStr s] =
-  match to_i64_opt (num_of_text s) with Some a => Ok (VNum (dec_of_Z a)) | None => Unk end.
+  builtin_apply off (str "toInt") [VStr s] = Ok (VNum (to_int_dec (num_of_text s))).
 Proof. reflexivity. Qed.
 Lemma ba_finite_str off s : builtin_apply off (str "finite") [VStr s] = Ok (VNum dec_zero).
 Proof. reflexivity. Qed.
@@ -875,17 +873,103 @@ Theorem toInt_truncates off x : is_finite x = true -> dec_wf x = true ->
 Proof.
   intros Hfin Hwf Hr. destruct x as [n c e| |]; try discriminate Hfin.
   cbn [dec_wf] in Hwf. apply Z.leb_le in Hwf.
-  exists (trunc_dec (Fin n c e)). rewrite ba_toInt_num, to_i64_opt_fin by exact Hr.
+  exists (trunc_dec (Fin n c e)). rewrite ba_toInt_num. unfold to_int_dec. rewrite to_i64_opt_fin by exact Hr.
   split; [reflexivity|]. apply (trunc_dec_spec n c e Hwf).
 Qed.
 
-(* the library's Int64() is unspecified outside the int64 range: not modelled *)
-Theorem toInt_out_of_range off x : is_finite x = true ->
-  ~ (-9223372036854775808 <= trunc_dec x <= 9223372036854775807) ->
-  builtin_apply off (str "toInt") [VNum x] = Unk.
+(* to_int_dec (funToInt), case by case *)
+Lemma to_int_dec_in_range d a : to_i64_opt d = Some a -> to_int_dec d = dec_of_Z a.
+Proof. intros H. unfold to_int_dec. rewrite H. reflexivity. Qed.
+
+Lemma to_int_dec_beyond n c e : to_i64_opt (Fin n c e) = None ->
+  to_int_dec (Fin n c e) = if 0 <=? e then Fin n c e else Fin n (c / pow10 (- e)) 0.
+Proof. intros H. unfold to_int_dec. rewrite H. reflexivity. Qed.
+
+Lemma to_i64_opt_fin_iff n c e :
+  (to_i64_opt (Fin n c e) = Some (trunc_dec (Fin n c e)) <-> in_int64 (trunc_dec (Fin n c e))) /\
+  (to_i64_opt (Fin n c e) = None <-> ~ in_int64 (trunc_dec (Fin n c e))).
 Proof.
-  intros Hfin Hr. destruct x as [n c e| |]; try discriminate Hfin.
-  rewrite ba_toInt_num, to_i64_opt_fin_out by exact Hr. reflexivity.
+  assert (Hdec : in_int64 (trunc_dec (Fin n c e)) \/ ~ in_int64 (trunc_dec (Fin n c e))) by (unfold in_int64; lia).
+  destruct Hdec as [H|H].
+  - rewrite (to_i64_opt_fin n c e H). split; split; intros H'; try exact H; try reflexivity; try discriminate H'.
+    contradiction.
+  - rewrite (to_i64_opt_fin_out n c e H). split; split; intros H'; try exact H; try reflexivity; try discriminate H'.
+    contradiction.
+Qed.
+
+Lemma trunc_dec_of_Z a : trunc_dec (dec_of_Z a) = a.
+Proof.
+  unfold dec_of_Z, trunc_dec. cbn [Z.leb Z.compare]. rewrite bn_pow10_0, Z.mul_1_r.
+  unfold scoef. destruct (a <? 0) eqn:E; [apply Z.ltb_lt in E|apply Z.ltb_ge in E]; lia.
+Qed.
+
+(* the value of toInt is the truncation toward zero of its argument, whatever the size (and 0 for
+   NaN and the infinities, whose trunc_dec is 0) *)
+Theorem to_int_dec_trunc d : trunc_dec (to_int_dec d) = trunc_dec d.
+Proof.
+  destruct d as [n c e|n|]; [|reflexivity|reflexivity].
+  destruct (to_i64_opt (Fin n c e)) as [a|] eqn:E.
+  - rewrite (to_int_dec_in_range _ a E), trunc_dec_of_Z.
+    unfold to_i64_opt, dec_to_int in E. unfold trunc_dec.
+    destruct (_ && _) in E; [|discriminate E]. injection E as E. symmetry. exact E.
+  - rewrite (to_int_dec_beyond n c e E). destruct (0 <=? e) eqn:Ee; [reflexivity|].
+    unfold trunc_dec. rewrite Ee. cbn [Z.leb Z.compare]. rewrite bn_pow10_0, Z.mul_1_r. reflexivity.
+Qed.
+
+(* ... it has no fraction digits, and keeps the sign flag of its argument beyond int64 *)
+Lemma to_int_dec_integer d : is_integer_dec (to_int_dec d) = true.
+Proof.
+  destruct d as [n c e|n|]; [|reflexivity|reflexivity].
+  destruct (to_i64_opt (Fin n c e)) as [a|] eqn:E.
+  - rewrite (to_int_dec_in_range _ a E). reflexivity.
+  - rewrite (to_int_dec_beyond n c e E). destruct (0 <=? e) eqn:Ee; [exact Ee|reflexivity].
+Qed.
+
+Lemma to_int_dec_wf d : dec_wf d = true -> dec_wf (to_int_dec d) = true.
+Proof.
+  destruct d as [n c e|n|]; [|reflexivity|reflexivity]. intros Hwf.
+  destruct (to_i64_opt (Fin n c e)) as [a|] eqn:E.
+  - rewrite (to_int_dec_in_range _ a E). cbn [dec_of_Z dec_wf]. apply Z.leb_le. lia.
+  - rewrite (to_int_dec_beyond n c e E). destruct (0 <=? e) eqn:Ee; [exact Hwf|].
+    cbn [dec_wf] in *. apply Z.leb_le in Hwf. apply Z.leb_gt in Ee. apply Z.leb_le.
+    apply Z.div_pos; [exact Hwf|]. apply bn_pow10_pos. lia.
+Qed.
+
+(* an integer-valued decimal denotes its trunc_dec *)
+Lemma dec_val_integer_dec x : is_integer_dec x = true -> (dec_val x == inject_Z (trunc_dec x))%Q.
+Proof.
+  destruct x as [n c e|n|]; try discriminate. cbn [is_integer_dec]. intros He.
+  rewrite (dec_val_int n c e) by (apply Z.leb_le; exact He).
+  unfold trunc_dec. rewrite He, scoef_mul. reflexivity.
+Qed.
+
+(* beyond int64 the decimal itself is truncated: the same number when it has no fraction digits,
+   the integer quotient of the coefficient otherwise *)
+Theorem toInt_beyond_int64 off n c e : to_i64_opt (Fin n c e) = None ->
+  (0 <= e -> builtin_apply off (str "toInt") [VNum (Fin n c e)] = Ok (VNum (Fin n c e))) /\
+  (e < 0 -> builtin_apply off (str "toInt") [VNum (Fin n c e)] = Ok (VNum (Fin n (c / pow10 (- e)) 0))).
+Proof.
+  intros H. rewrite ba_toInt_num, (to_int_dec_beyond n c e H). split; intros He.
+  - apply Z.leb_le in He. rewrite He. reflexivity.
+  - apply Z.leb_gt in He. rewrite He. reflexivity.
+Qed.
+
+(* toInt on every finite number, within int64 or beyond: an integer-valued decimal r whose value is
+   T = trunc_dec x, the truncation toward zero of x *)
+Theorem toInt_spec off x : is_finite x = true -> dec_wf x = true -> exists r T,
+  builtin_apply off (str "toInt") [VNum x] = Ok (VNum r) /\ r = to_int_dec x /\
+  T = trunc_dec x /\ trunc_dec r = T /\ is_integer_dec r = true /\ dec_wf r = true /\
+  (dec_val r == inject_Z T)%Q /\
+  (Qabs (inject_Z T) <= Qabs (dec_val x))%Q /\ (Qabs (dec_val x) < Qabs (inject_Z T) + 1)%Q /\
+  ((0 <= dec_val x)%Q -> 0 <= T) /\ ((dec_val x <= 0)%Q -> T <= 0).
+Proof.
+  intros Hfin Hwf. exists (to_int_dec x), (trunc_dec x).
+  split; [apply ba_toInt_num|]. split; [reflexivity|]. split; [reflexivity|].
+  split; [apply to_int_dec_trunc|]. split; [apply to_int_dec_integer|].
+  split; [apply to_int_dec_wf; exact Hwf|]. split.
+  - rewrite (dec_val_integer_dec _ (to_int_dec_integer x)), to_int_dec_trunc. reflexivity.
+  - destruct x as [n c e| |]; try discriminate Hfin.
+    cbn [dec_wf] in Hwf. apply Z.leb_le in Hwf. apply (trunc_dec_spec n c e Hwf).
 Qed.
 
 Theorem toInt_nonfinite off n :
@@ -905,7 +989,9 @@ Proof. rewrite ba_toInt_str, ba_toInt_num. reflexivity. Qed.
 Example ex_toInt :
   builtin_apply 0 (str "toInt") [VNum (Fin true 1999 (-2))] = Ok (VNum (dec_of_Z (-19))) /\
   builtin_apply 0 (str "toInt") [VStr (str "42.9")] = Ok (VNum (dec_of_Z 42)) /\
-  builtin_apply 0 (str "toInt") [VNum (Fin false 1 25)] = Unk.
+  builtin_apply 0 (str "toInt") [VNum (Fin false 1 25)] = Ok (VNum (Fin false 1 25)) /\
+  builtin_apply 0 (str "toInt") [VNum (Fin true 123456789012345678905 (-1))] = Ok (VNum (Fin true 12345678901234567890 0)) /\
+  to_i64_opt (Fin false 1 25) = None /\ to_i64_opt (Fin true 123456789012345678905 (-1)) = None.
 Proof. repeat split. Qed.
 
 Theorem toFloat_spec off :
